@@ -62,7 +62,7 @@ JudgeWrite(rec) ==
           <<Len(cyc) >= 1 /\ cyc[1].w_ok /\ cyc[1].r.ok /\ Len(cyc[1].r.paras) = Len(ne),
             "paragraphs written through one Encoder read back as a different number of paragraphs">>,
           <<lead \/ SameParas(cyc[1].r.paras, ne), "encoder output reads back with different content">>,
-          <<lead \/ (Len(cyc) = 3 /\ CyclesStable(cyc, 1)), "a write/read cycle changed the document">> >>)
+          <<lead \/ (Len(cyc) = 3 /\ CyclesStable(cyc, IF Len(ne) = Len(ps) THEN 1 ELSE 2)), "a write/read cycle changed the document">> >>)
 
 \* ---- C08: read-write-read on reader output ----------------------------------
 \* The one way the reader's output is known not to be a fixpoint: a value whose
